@@ -4,6 +4,13 @@ package corr
 // FeedbackAdapter) and `rtpfb` (pkg/rtpfb decoders, history and processFeedback behind the
 // public BindLocalStream).  Feedback is given in PARSED form; all times are integers
 // "nanoseconds since Go's zero time.Time" (Z-time), printed with math/big.
+//
+// RE-ENTRANCY (component `rtpfb`, ambient option `nest=1`, class `loopback`): the transport below the interceptor is
+// synchronous.  The `q …` ops and the `fb` that directly follow a `send` are executed by the bottom RTP writer before
+// it returns from that Write (same goroutine), and every `fb` whose queued packets survive Marshal/Unmarshal is read
+// through the interceptor's own RTCP reader (BindRTCPReader: bytes from the transport, the injected clock reads `now=`,
+// the report is the one attached to the returned attributes) instead of the processFeedback hook.  The model runs the
+// ops in sequence: a packet handed to the writer below is sent, feedback about it is feedback about a sent packet.
 
 import (
 	"fmt"
@@ -318,6 +325,46 @@ type c09Peer struct {
 	// the arrival instants the REMOTE peer recorded for packets named by queued RFC 8888 reports
 	// (`want=` of a `q ccfb` op), to be compared with the decoded arrival of the next `fb`
 	wants map[c09WantKey]time.Time
+	// option `nest=1`: the ops the bottom RTP writer executes before it returns from the Write of the current `send`;
+	// the interceptor's RTCP reader and the bytes the transport below it returns
+	nested []string
+	reader interceptor.RTCPReader
+	rtcpIn []byte
+}
+
+// c09Wire returns the wire form of a compound of parsed RTCP packets when it carries exactly what the parsed packets
+// say (hand-made feedback with inconsistent counts, unknown chunks, … does not survive Marshal/Unmarshal).
+func c09Wire(pk []rtcp.Packet) ([]byte, bool) {
+	if len(pk) == 0 {
+		return nil, false
+	}
+	for _, p := range pk {
+		if fb, ok := p.(*rtcp.TransportLayerCC); ok {
+			// TransportLayerCC.Marshal writes the header it finds in the struct: fill it in as the library's recorder does
+			n := 20 + 2*len(fb.PacketChunks)
+			for _, d := range fb.RecvDeltas {
+				n++
+				if d.Type != rtcp.TypeTCCPacketReceivedSmallDelta {
+					n++
+				}
+			}
+			fb.Header = rtcp.Header{Padding: n%4 != 0, Count: rtcp.FormatTCC, Type: rtcp.TypeTransportSpecificFeedback, Length: uint16(fb.MarshalSize()/4 - 1)}
+		}
+	}
+	raw, err := rtcp.Marshal(pk)
+	if err != nil || len(raw) > 1400 {
+		return nil, false
+	}
+	back, err := rtcp.Unmarshal(raw)
+	if err != nil || len(back) != len(pk) {
+		return nil, false
+	}
+	for i := range pk {
+		if rtcpText(back[i]) != rtcpText(pk[i]) {
+			return nil, false
+		}
+	}
+	return raw, true
 }
 
 type c09WKey struct {
@@ -342,7 +389,11 @@ func c09RunRtpfb(t *testing.T, ops []string, o *Out) {
 	for i := range peers {
 		ic, _ := f.NewInterceptor("")
 		defer ic.Close()
-		peers[i] = &c09Peer{ic: ic, hist: rtpfb.VerifHistoryOf(ic), writers: map[c09WKey]interceptor.RTPWriter{}, wants: map[c09WantKey]time.Time{}}
+		pe := &c09Peer{ic: ic, hist: rtpfb.VerifHistoryOf(ic), writers: map[c09WKey]interceptor.RTPWriter{}, wants: map[c09WantKey]time.Time{}}
+		pe.reader = ic.BindRTCPReader(interceptor.RTCPReaderFunc(func(b []byte, a interceptor.Attributes) (int, interceptor.Attributes, error) {
+			return copy(b, pe.rtcpIn), a, nil
+		}))
+		peers[i] = pe
 	}
 	payload := make([]byte, 1500)
 	// a []PacketReport handed to the application (attached to the RTCP attributes) is the application's: it may queue
@@ -369,7 +420,11 @@ func c09RunRtpfb(t *testing.T, ops []string, o *Out) {
 	checkRef := func(fb *rtcp.CCFeedbackReport, ts time.Time, ref string) bool {
 		return c09ZS(verifhooks.ToTime32(fb.ReportTimestamp, ts)) == ref
 	}
-	for _, fullOp := range ops {
+	// exec executes one op.  It is called by the loop below and — option `nest=1` of the ambient — from INSIDE the bottom
+	// RTP writer for the `q …` / `fb` ops that directly follow a `send` (see the head of the file).
+	nest := o.Amb != nil && o.Amb.Opts["nest"] == "1"
+	var exec func(fullOp string)
+	exec = func(fullOp string) {
 		o.CheckKept()
 		op, who := twinOp(fullOp)
 		pe := peers[who]
@@ -393,7 +448,7 @@ func c09RunRtpfb(t *testing.T, ops []string, o *Out) {
 			fb, ok := c09ParseTWCC(m)
 			if !ok {
 				P("bad-op")
-				continue
+				return
 			}
 			was := rtcpTexts([]rtcp.Packet{fb})
 			acks := rtpfb.VerifConvertTWCC(fb)
@@ -406,7 +461,7 @@ func c09RunRtpfb(t *testing.T, ops []string, o *Out) {
 			fb, ok := c09ParseCCFB(m)
 			if !ok || m["now"] == "" || !checkRef(fb, c09ZT(m["now"]), m["ref"]) {
 				P("bad-op")
-				continue
+				return
 			}
 			was := rtcpTexts([]rtcp.Packet{fb})
 			d, res := rtpfb.VerifConvertCCFB(c09ZT(m["now"]), fb)
@@ -441,6 +496,13 @@ func c09RunRtpfb(t *testing.T, ops []string, o *Out) {
 				}
 				g := guardInfo(info)
 				w = pe.ic.BindLocalStream(info, interceptor.RTPWriterFunc(func(_ *rtp.Header, p []byte, _ interceptor.Attributes) (int, error) {
+					// a synchronous transport (in-process loop-back): the peer's feedback about this very packet is read
+					// through the interceptor's RTCP reader while this Write is still on the stack
+					nested := pe.nested
+					pe.nested = nil
+					for _, q := range nested {
+						exec(q)
+					}
 					return len(p), nil
 				}))
 				if d := g.Check(); d != "" {
@@ -461,20 +523,20 @@ func c09RunRtpfb(t *testing.T, ops []string, o *Out) {
 			f := strings.Fields(op)
 			if len(f) < 2 {
 				P("bad-op")
-				continue
+				return
 			}
 			if f[1] == "twcc" {
 				fb, ok := c09ParseTWCC(m)
 				if !ok {
 					P("bad-op")
-					continue
+					return
 				}
 				pe.queue = append(pe.queue, fb)
 			} else if f[1] == "ccfb" {
 				fb, ok := c09ParseCCFB(m)
 				if !ok || m["now"] == "" || !checkRef(fb, c09ZT(m["now"]), m["ref"]) {
 					P("bad-op")
-					continue
+					return
 				}
 				pe.queue = append(pe.queue, fb)
 				// want=<ssrc>:<seq>:<Z-time>/… : what the peer that built this report recorded as arrival instants
@@ -513,12 +575,36 @@ func c09RunRtpfb(t *testing.T, ops []string, o *Out) {
 			wants := pe.wants
 			pe.wants = map[c09WantKey]time.Time{}
 			was := rtcpTexts(pk)
-			rtt, prs := rtpfb.VerifProcessFeedback(pe.ic, ts, pk)
+			var rtt time.Duration
+			var prs []rtpfb.PacketReport
+			var raw []byte
+			wire := false
+			if nest {
+				raw, wire = c09Wire(pk)
+			}
+			if wire {
+				// the real RTCP reader: the bytes come from the transport below, the clock reads `now=` when they arrive,
+				// the report is what the reader attaches to the attributes it returns
+				pe.rtcpIn, now = raw, ts
+				buf := make([]byte, len(raw)+100)
+				n, attr, err := pe.reader.Read(buf, interceptor.Attributes{})
+				if err != nil || n != len(raw) {
+					P("READ n=%d err=%v for %d bytes of feedback", n, err, len(raw))
+				}
+				if rep, ok := attr.Get(rtpfb.CCFBAttributesKey).(rtpfb.Report); ok {
+					rtt, prs = rep.RTT, rep.PacketReports
+					if !rep.Arrival.Equal(ts) {
+						P("REPORT-ARRIVAL %s, the feedback arrived at %s", c09ZS(rep.Arrival), c09ZS(ts))
+					}
+				}
+			} else {
+				rtt, prs = rtpfb.VerifProcessFeedback(pe.ic, ts, pk)
+			}
 			// the parsed packets are shared with every other RTCP reader of a chain (Attributes.GetRTCPPackets): input
 			o.CheckRTCPTexts(who, "processFeedback", was, pk)
 			if len(prs) == 0 {
 				P("report none")
-				continue
+				return
 			}
 			P("report rtt=%d n=%d", int64(rtt), len(prs))
 			showReports(prs)
@@ -557,6 +643,34 @@ func c09RunRtpfb(t *testing.T, ops []string, o *Out) {
 		default:
 			P("bad-op")
 		}
+	}
+	for i := 0; i < len(ops); i++ {
+		if _, who := twinOp(ops[i]); nest && strings.HasPrefix(strings.TrimPrefix(ops[i], "twin "), "send ") {
+			// the feedback ops of the same peer that directly follow: zero or more `q`, then one `fb`
+			j := i + 1
+			for ; j < len(ops); j++ {
+				op, w := twinOp(ops[j])
+				if w != who || !strings.HasPrefix(op, "q ") {
+					break
+				}
+			}
+			if j < len(ops) {
+				if op, w := twinOp(ops[j]); w == who && strings.HasPrefix(op, "fb ") {
+					peers[who].nested = ops[i+1 : j+1]
+					exec(ops[i])
+					if len(peers[who].nested) > 0 { // the `send` did not reach the bottom writer (bad-op): in sequence
+						nested := peers[who].nested
+						peers[who].nested = nil
+						for _, q := range nested {
+							exec(q)
+						}
+					}
+					i = j
+					continue
+				}
+			}
+		}
+		exec(ops[i])
 	}
 }
 
@@ -1140,15 +1254,23 @@ func c09GenAdapter(r *Rng, tier string, idx int) Case {
 }
 
 var c09RtpfbClasses = []string{"conv-twcc", "conv-ccfb", "twcc-recorder", "ccfb-recorder", "twcc-hand", "ccfb-hand", "history", "inflight", "idle-reads",
-	"ccfb-skew", "ccfb-collide", "twin", "twin", "via"}
+	"ccfb-skew", "ccfb-collide", "twin", "twin", "via", "loopback"}
 
 // the classes a twin case is made of (everything that goes through an interceptor's history)
-var c09TwinBases = []string{"twcc-recorder", "ccfb-recorder", "twcc-hand", "ccfb-hand", "history", "idle-reads", "ccfb-skew", "inflight", "ccfb-collide", "via"}
+var c09TwinBases = []string{"twcc-recorder", "ccfb-recorder", "twcc-hand", "ccfb-hand", "history", "idle-reads", "ccfb-skew", "inflight", "ccfb-collide", "via", "loopback"}
 
 func c09GenRtpfb(r *Rng, tier string, idx int) Case {
 	cl := c09RtpfbClasses[idx%len(c09RtpfbClasses)]
+	// RE-ENTRANCY, "the transport below is synchronous" (option `nest=1` of the case's ambient, an option private to this
+	// component; class `loopback`, one case in eight of the other classes that go through an interceptor's history, and
+	// the twin cases made of `loopback`): see c09RunRtpfb.
+	nestAmb := ambWith(ambOp("", "", false, false, false, false), "nest=1")
 	if cl != "twin" {
-		return Case{Class: cl, Ops: c09GenRtpfbClass(r, cl)}
+		ops := c09GenRtpfbClass(r, cl)
+		if cl == "loopback" || (cl != "conv-twcc" && cl != "conv-ccfb" && r.Chance(1, 8)) {
+			ops = append([]string{nestAmb}, ops...)
+		}
+		return Case{Class: cl, Ops: ops}
 	}
 	// Two peer connections: the interceptor under test and a twin built from the same factory each carry a case
 	// of their own.  Transport-wide numbers and (SSRC, sequence number) pairs collide as they do in an
@@ -1165,7 +1287,11 @@ func c09GenRtpfb(r *Rng, tier string, idx int) Case {
 	} else {
 		b = c09GenRtpfbClass(r, base)
 	}
-	return Case{Class: "twin-" + base, Ops: twinInterleave(r, a, b, r.Pick(1, 3, 10, 40))}
+	ops := twinInterleave(r, a, b, r.Pick(1, 3, 10, 40))
+	if base == "loopback" {
+		ops = append([]string{nestAmb}, ops...)
+	}
+	return Case{Class: "twin-" + base, Ops: ops}
 }
 
 // c09RtpfbVariant: the same numbers as `ops`, other payload sizes and ECN marks, some ops left out.
@@ -1620,6 +1746,54 @@ func c09GenRtpfbClass(r *Rng, cl string) []string {
 		ops = append(ops, "hsizes")
 	case "ccfb-skew":
 		ops = c09GenSkew(r)
+	case "loopback":
+		// "Every acknowledgement is attributed to a packet that was really sent": a packet is sent from the moment the
+		// interceptor hands it to the writer below.  The transport below is synchronous (an in-process loop-back, a
+		// pipe): the peer — the real twcc / rfc8888 recorder — has the packet while that Write is still on the stack and
+		// answers at once; the feedback about packets up to and including packet k is read through the interceptor's
+		// RTCP reader before Write(k) returns (`nest=1`: the `q` / `fb` ops that follow a `send` are executed inside the
+		// bottom RTP writer).  The model runs the same ops in sequence: the report names packet k as arrived.
+		useTW := r.Bool()
+		recT, recC := twcc.NewRecorder(5000), rfc8888.NewRecorder()
+		ssrcs := []uint32{uint32(r.Range(1, 5)), uint32(r.Range(6, 9))}
+		seq := map[uint32]int{ssrcs[0]: r.Pick(0, 65500, r.Intn(65536)), ssrcs[1]: r.Intn(65536)}
+		tw := r.Pick(0, 65400, r.Intn(65536))
+		for n := r.Range(3, 40); n > 0; n-- {
+			var batch []c09Sent
+			for k := r.Pick(1, 1, 1, 2, 3, 8); k > 0; k-- {
+				s := ssrcs[r.Intn(2)]
+				if useTW {
+					ops = append(ops, sendOp(s, seq[s], true, tw, r.Range(0, 1200)))
+				} else {
+					ops = append(ops, sendOp(s, seq[s], false, -1, r.Range(0, 1200)))
+				}
+				batch = append(batch, c09Sent{ssrc: s, seq: uint16(seq[s]), tw: uint16(tw), ms: ms})
+				seq[s]++
+				tw++
+				if k > 1 {
+					ms += int64(r.Range(0, 12))
+				}
+			}
+			ms += int64(r.Range(61, 150)) // spent inside the Write of the last packet (arrivals: 5..60 ms after departure)
+			if r.Chance(1, 8) {
+				ops = append(ops, "q other")
+			}
+			if useTW {
+				for _, f := range c09RecorderTWCC(r, recT, batch) {
+					ops = append(ops, "q twcc "+f)
+				}
+			} else {
+				for _, f := range c09RecorderCCFB(r, recC, batch, c09At(ms), false) {
+					ops = append(ops, "q ccfb "+f)
+				}
+			}
+			ops = append(ops, "fb now="+c09ZS(c09At(ms)))
+			ms += int64(r.Range(0, 30))
+			if r.Chance(1, 6) {
+				ops = append(ops, "hsizes")
+			}
+		}
+		ops = append(ops, "hsizes")
 	}
 	return ops
 }
